@@ -109,7 +109,7 @@ class Interp:
                 size = size.as_long()
             for lf in sub.leaves:
                 self.leaves.append(Leaf(path + ("*",) + lf.path, lf.kind, pos + idx * size + lf.off, lf.width,
-                                        lf.idx + ((idx, count),)))
+                                        lf.idx + ((idx, count, size),)))
             return pos + count * size, ("array", count, size, v)
         if isinstance(con, c.FormatField):
             self.leaves.append(Leaf(path, kind + (("fmt", con.fmtstr),), pos, con.length))
@@ -156,6 +156,35 @@ def interpret(con, pos=0, values=None, prefix="v"):
     return it, end, val
 
 
+def tiling_claim(it, start, end):
+    """the leaves, in parse order, tile [start, end) without gap or overlap (arrays: count x element size).
+    Together with 'no Seek' this means every byte below `end` is consumed by a fixed-size read."""
+    claims = []
+    pos = start
+    i = 0
+    leaves = it.leaves
+    while i < len(leaves):
+        lf = leaves[i]
+        if not lf.idx:
+            claims.append(lf.off == pos)
+            pos = lf.off + lf.width
+            i += 1
+            continue
+        idx, count, size = lf.idx[-1]
+        j = i
+        inner = pos
+        base = pos
+        while j < len(leaves) and leaves[j].idx and leaves[j].idx[-1][0] is idx:
+            claims.append(leaves[j].off - idx * size == inner)
+            inner = inner + leaves[j].width
+            j += 1
+        claims.append(inner == base + size)
+        pos = base + count * size
+        i = j
+    claims.append(pos == end)
+    return z3.And(*claims)
+
+
 def prove(assumptions, claim, timeout_ms=60000):
     """-> ('unsat'|'sat'|'unknown', model-or-None, seconds).  unsat == claim holds under assumptions"""
     import time
@@ -181,3 +210,57 @@ def term_str(t):
     if z3.is_expr(t):
         return str(z3.simplify(t)).replace("\n", " ")
     return str(t)
+
+
+def _concrete(x):
+    return x if isinstance(x, int) else z3.simplify(x + 0).as_long()
+
+
+def conformance():
+    """interpreter vs synthesiser (independent walk of the same live structs) vs real parser, on concrete structure parameters"""
+    from ceos_alos2.sar_image.file_descriptor import file_descriptor_record as img_fd
+    from ceos_alos2.sar_image.processed_data import processed_data_record
+    from ceos_alos2.sar_image.signal_data import signal_data_record
+    from ceos_alos2.sar_leader import attitude, data_quality_summary, dataset_summary, facility_related_data
+    from ceos_alos2.sar_leader import file_descriptor as ledfd
+    from ceos_alos2.sar_leader import map_projection, platform_position, radiometric_data
+    from ceos_alos2.sar_trailer.file_descriptor import file_descriptor_record as trl_fd
+    from ceos_alos2.volume_directory.structure import volume_directory_record
+    from vlib import synth
+
+    P = synth.preamble
+    cases = [
+        (img_fd, {"preamble": P(1, 50, 192, 18, 18, 720)}, {}),
+        (signal_data_record, {"preamble": P(2, 50, 10, 18, 20, 600)}, {("preamble", "record_length"): 600}),
+        (processed_data_record, {"preamble": P(2, 50, 11, 18, 20, 300)}, {("preamble", "record_length"): 300}),
+        (ledfd.file_descriptor_record, {}, {}),
+        (dataset_summary.dataset_summary_record, {"motion_compensation_indicator": 0, "base_band_conversion_flag": "YES",
+                                                  "range_compression_flag": "NO", "echo_tracker_status": "ON",
+                                                  "weighting_function_in_azimuth": "1", "weighting_function_in_range": "1",
+                                                  "clutter_lock_applied_flag": "YES", "auto_focusing_applied_flag": "YES"}, {}),
+        (map_projection.map_projection_record, {}, {}),
+        (platform_position.platform_position_record, {"orbital_elements_designator": "2"}, {}),
+        (attitude.attitude_record, {"preamble": P(5, 18, 40, 18, 20, 1000), "number_of_points": 5},
+         {("preamble", "record_length"): 1000, ("number_of_points",): 5}),
+        (radiometric_data.radiometric_data_record, {}, {}),
+        (data_quality_summary.data_quality_summary_record, {"number_of_channels": 3}, {("number_of_channels",): 3}),
+        (facility_related_data.facility_related_data_record, {"preamble": P(8, 18, 200, 18, 70, 90)}, {("preamble", "record_length"): 90}),
+        (facility_related_data.facility_related_data_5_record, {"calibration_mode_data_location_flag": 0}, {}),
+        (volume_directory_record, {"volume_descriptor": {"number_of_file_pointer_records": 3}},
+         {("volume_descriptor", "number_of_file_pointer_records"): 3}),
+        (trl_fd, {"number_of_low_resolution_images": 2}, {("number_of_low_resolution_images",): 2}),
+    ]
+    total = 0
+    for struct, vals, ivals in cases:
+        rec = []
+        raw, _ = synth.build(struct, vals, {}, rec=rec)
+        it, end, _ = interpret(struct, values=ivals)
+        mine = [(lf.path, _concrete(lf.off), _concrete(lf.width)) for lf in it.leaves]
+        assert mine == rec, ("interpreter/synthesiser disagree", [x for x in zip(mine, rec) if x[0] != x[1]][:3])
+        total += len(mine)
+        if struct not in (signal_data_record, processed_data_record):
+            assert _concrete(end) == len(raw), (end, len(raw))
+            struct.parse(raw)
+        else:
+            struct.parse(raw + bytes(_concrete(end) - len(raw)))
+    return total
